@@ -11,7 +11,7 @@ from vlib import VERIF
 
 # False: model of /repo as it is.  True: model of /repo after notes/C09-zero-residual.patch has been applied
 # (flip this when the patch lands; the driver then replays with [fixed = true]).
-FIXED_ZERO_RESIDUAL = False
+FIXED_ZERO_RESIDUAL = os.environ.get("C09_FIXED", "0") == "1"
 
 DELTA_TOL = 1e-9
 
@@ -138,7 +138,10 @@ def _private_copies(d):
     VERIF_REPO garbage-collects build/bin entries of other repo hashes; retry when that happens in between)"""
     import shutil
     for attempt in range(3):
-        outs, fails = _build_harness()
+        try:
+            outs, fails = _build_harness()
+        except FileNotFoundError:   # two runs building the same binary at once: the other one moved the .tmp away
+            continue
         if fails:
             return None, fails
         try:
@@ -293,6 +296,6 @@ CFG = dict(
 TEXT = dict(
     technique="Coq proof over a hand-written executable model of the minimize loop and both trust-region strategies (oracle record for the numerics) + replay of recorded real runs through the extracted model + property harness on the real code",
     text="Machine-checked theorems (Coq 8.16, no axioms) over EVERY oracle sequence, option record, start and initial strategy state: callback points have non-increasing cost and the result is never worse than the start (exact arithmetic, any strategy that only takes steps with rho>0 - proved for Ceres and Disney; refuted for arbitrary user strategies), floating-point variant with relative slack; iter <= max_iter, callbacks = 1 + accepted steps <= max_iter+1; MaxIters iff no convergence test fired (then iter = max_iter), a Ftol/Ptol status is the verdict of the last executed iteration, which took a step; final arguments = last callback point; Delta>0 preserved, rejection at least halves (Ceres) / divides by 10 (Disney) Delta, acceptance bounds. The model is tied to /repo by replaying ~1000 recorded minimize runs per tier unit (linear LS static/dynamic/sparse, polynomial, SO3/SE2/SE3/Bundle alignment, multi-argument, sparse Jacobian, curve fitting; Numerical/Analytic/Default; Ceres/Disney/scripted/reused strategy; all option boundaries incl. max_iter 0/1, tolerances 0 and negative; degenerate starts). Convergence within 1e-3 of planted minimisers by harness (partial: correspondence only).",
-    note="Known finding C09-zero-residual-nan: with ptol <= 0 and an exactly zero residual the loop spins, Delta underflows, lambda = 1/Delta = inf, the solver returns NaN and the r_n == 0 branch stores NaN into the arguments (model side: C09_zero_residual_spin_refuted / C09_zero_residual_stops_fixed; repair notes/C09-zero-residual.patch, then set FIXED_ZERO_RESIDUAL = True in scripts/props_C09.py). Numerical differentiation perturbs the arguments in place, so final arguments equal the last callback point only up to ~1e-14 in Numerical mode.",
+    note="Known finding C09-zero-residual-nan: with ptol <= 0 and an exactly zero residual the loop spins, Delta underflows, lambda = 1/Delta = inf, the solver returns NaN and the r_n == 0 branch stores NaN into the arguments (model side: C09_zero_residual_spin_refuted / C09_zero_residual_stops_fixed; repair notes/C09-zero-residual.patch, then flip the default of FIXED_ZERO_RESIDUAL (env C09_FIXED) in scripts/props_C09.py). Numerical differentiation perturbs the arguments in place, so final arguments equal the last callback point only up to ~1e-14 in Numerical mode.",
     design_ref="DESIGN.md section 5 C09; notes/C09.md",
 )
